@@ -15,6 +15,7 @@ import sys
 import xml.etree.ElementTree as ET
 from fractions import Fraction
 
+import guard
 from labella.scale import LinearScale, TimeScale
 from labella.timeline import TimelineSVG, TimelineTex
 
@@ -224,8 +225,9 @@ def export_both(data, opts, kind):
     for backend, cls in (("svg", TimelineSVG), ("tikz", TimelineTex)):
         d = copy.deepcopy(data)
         o = realise_options(opts, kind)
-        tl = cls(d, o)
-        doc = tl.export()
+        with guard.limit(900):
+            tl = cls(d, o)
+            doc = tl.export()
         if isinstance(doc, bytes):
             doc = doc.decode("utf-8")
         out[backend] = (tl, doc, o)
@@ -492,8 +494,9 @@ def total_record(desc, data, opts):
             elif opts.get("scale") == "TIME":
                 o["scale"] = TimeScale()
         try:
-            tl = cls(d, o) if opts is not None else cls(d)
-            doc = tl.export()
+            with guard.limit(900):
+                tl = cls(d, o) if opts is not None else cls(d)
+                doc = tl.export()
             if backend == "svg":
                 P = parse_svg(doc.decode("utf-8"))
                 dom = tl.options["scale"].domain()
